@@ -3,6 +3,7 @@ import itertools, random, re
 from . import gen
 from .core import hx, coq_read_all
 from . import sexp as SX
+from . import structproj as SP
 
 PROPS = {}
 
@@ -27,7 +28,7 @@ class Prop:
 
     def project(self, case, line):
         """the part of an observation this property speaks about"""
-        return line
+        return std(line)
 
     def nontrivial(self, case, line):
         return True
@@ -90,6 +91,41 @@ def tree_or_err(line):
     """OK <opts> <tree> stays, every error message collapses to ERR"""
     if line.startswith("ERR"):
         return "ERR"
+    return line
+
+
+CERR_RE = re.compile(r" CERR (\w+) (\S*) (.*)$")
+PERR_ARG = re.compile(r"^ERR Syntax error: Failed to parse argument `(.*)` of (test|action|global option) `([^`]*)`(?:: (.*))?$")
+PERR_TOK = re.compile(r"^ERR Syntax error: Unexpected token: `(.*)`$")
+
+
+def cerr_struct(line):
+    """a compile error as variant + payload (the construct it names); the wording of its Display
+    text is something no property speaks about"""
+    m = CERR_RE.search(line)
+    return line[:m.start()] + " CERR %s %s" % (m.group(1), m.group(2)) if m else line
+
+
+def std(line):
+    """the default projection: a rejected input is just rejected (which message: C18), a compile
+    error is its variant and the construct it names (its wording: nobody)"""
+    return cerr_struct(tree_or_err(line))
+
+
+def std_struct(line):
+    """as [std], with the emitted programs compared as read-back structures (layout of the text: C04)"""
+    return cerr_struct(tree_or_err(SP.structural(line)))
+
+
+def perr_struct(line):
+    """what C18 speaks about in a parse error: which kind of error, the keyword named, the word
+    quoted -- not the wording of the explanation that follows"""
+    m = PERR_ARG.match(line)
+    if m:
+        return "ERR argument kind=%s keyword=%s word=%s explained=%s" % (m.group(2), m.group(3), m.group(1), "yes" if m.group(4) else "no")
+    m = PERR_TOK.match(line)
+    if m:
+        return "ERR token word=%s" % m.group(1)
     return line
 
 
@@ -156,7 +192,8 @@ def file_records(rng, expr_text, clock, k):
         if rng.random() < 0.4:
             perm ^= 1 << rng.randrange(12)
         w = rng.choice(words)
-        name = rng.choice([w, w.upper(), w.lower(), w + "x", w[:-1], w.replace("*", "zz").replace("?", "q"), "other"])
+        name = rng.choice([w, w.upper(), w.lower(), w + "x", w[:-1], w.replace("*", "zz").replace("?", "q"), "other",
+                           re.sub(r"\\(.)", r"\1", w), re.sub(r"\\(.)", r"\1", w).replace("*", "zz").replace("?", "q")])
         rel = rng.choice(["d/" + name, name, w, w.replace("*", "a/b")])
         pools = rng.sample(words + ["fast", "slow"], rng.randint(0, 2))
         xattrs = [(rng.choice(words + ["user.k"]), rng.choice(words + ["v", ""])) for _ in range(rng.randint(0, 2))]
@@ -255,8 +292,11 @@ def supported_expr(rng, depth):
 class C02(Prop):
     id = "C02"
     theorems = []
+
+    def project(self, case, line):
+        return std_struct(line)
     rule = ("random expressions over every supported test/action (boundary-rich arguments), compiled and rendered; "
-            "compared: the complete emitted program (whose meaning the theorems characterise) and the destination "
+            "compared: the emitted program as read back (whose meaning the theorems characterise) and the destination "
             "table. In addition (semantic oracle, coverage key semantic_oracle_evaluations) the IMPLEMENTATION's "
             "program text is read by the specified reader and evaluated by the specified Scheme semantics on file "
             "records directed at the constants of the expression (value-1/value/value+1 per unit, permission and "
@@ -282,6 +322,14 @@ class C02(Prop):
             names = " -o ".join("%s n%d" % (rng.choice(["-name", "-iname", "-path"]), i) for i in range(k))
             acts = " ".join(rng.choice(["-fprint o%d" % rng.randint(0, 3), "-print0", "-fprintf f '%p'", "-print", "-printf '%s\\n'"]) for _ in range(rng.randint(1, 4)))
             out.append((PC("( %s ) %s" % (names, acts)), "many-resources"))
+        # every string matcher x every class of pattern (plain; each glob special alone; an escaped ordinary
+        # character; an escaped special; a trailing backslash; mixed case) x every output mode
+        classes = ["ab", "a*", "a?b", "[ab]c", "a\\b", "a\\*b", "x\\", "Ab", "a[", "a\\[b", "*", "?", ""]
+        for kw in ["-name", "-iname", "-path", "-ipath", "-pool", "-xattr"]:
+            for pat in classes:
+                for act in ["", "-print", "-print0", "-fprint f", "-printf '%p'", "-printf '%p\\n'", "-quit"]:
+                    out.append((PC("%s '%s' %s" % (kw, pat, act)), "matcher-class-x-mode"))
+                out.append((PC("%s '%s' -o %s '%s' -print0" % (kw, pat, kw, pat.upper())), "matcher-class-x-mode"))
         return out
 
     def sequences(self, tier, rng):
@@ -315,7 +363,7 @@ class C02(Prop):
         from . import core
         if " COK " not in impl:
             return "the implementation does not produce a program where the property demands one (or the reverse)"
-        lines, meta = semantic_cases(random.Random(7), [(case, impl, model)], 60, 1)
+        lines, meta = semantic_cases(random.Random(7), [(case, impl, model)], 60 if len(case) > 3000 else 300, 1)
         outs = core.run_lines(os.path.join(core.OCAML, "driver"), lines)
         for (c, rec), o in zip(meta, outs):
             m = re.match(r"EVAL spec=(.*) \|\| prog=(.*)$", o or "")
@@ -428,6 +476,17 @@ class C03(Prop):
             out.append((PC("-printf 'a\\%03ob\\n'" % v), "octal-escape"))
             out.append((PC("-fprintf f '\\%03o'" % v), "octal-escape"))
         out += [(PC(s), "scale") for s in gen.scale_cases(rng)]
+        # no blank where the lexer needs none: punctuation glued to its neighbours, options anywhere
+        for _ in range(3000 if tier == "quick" else 60000):
+            ws = gen.words_with_options(rng, rng.randint(1, 4), nopts=2, unsupported=0.1)
+            if rng.random() < 0.5:
+                k = rng.randrange(len(ws) + 1)
+                ws[k:k] = rng.choice([["(", "-true", ",", "-false", ")"], ["!"], [","], ["(", ")"], ["!", "("]])
+            out.append((PC(gen.glue_punctuation(rng, ws)), "glued-punctuation"))
+        for lead in ["", "-depth ", "-threads 2 "]:
+            for body in ["-true,-depth", "(-true,-depth)", "(!-false,-threads 4)", "!(-true)", "(-true)-o(-false)", "-true,!-false",
+                         "((-true))", "(-name x)-print", "-true ,-depth", "-true, -depth", "(-depth)", "!-depth", ",-depth", "-depth,", "(-threads 3)!-true"]:
+                out.append((PC(lead + body), "glued-punctuation"))
         # every member / corrupted member of every argument language (the C05 corpus) is a totality input too
         c5 = PROPS["C05"].cases(tier, rng) if "C05" in PROPS else []
         out += [("PC " + c[2:] + " " + hx("/d") if c.startswith("P ") else c, "C05-corpus") for c, _ in c5]
@@ -536,17 +595,28 @@ class C04(Prop):
     def oracle(self, case, impl, model):
         texts = scheme_of(impl)
         if texts is None:
-            return "the implementation does not produce a program where the model does"
+            return None
         for t in texts:
             forms = read_forms(t)
             if forms is None or len(forms) != 2:
                 return "the emitted text does not read back as exactly two top-level forms"
         mt = scheme_of(model)
         if mt:
+            # user text lives in string literals: the literals of the program, in order, must decode to
+            # exactly what the property demands (the model's, proved); code around them is other properties' subject
             fi, fm = read_forms(texts[0]), read_forms(mt[0])
-            if fi != fm:
-                return "the emitted program reads back as a different structure than the one the property demands"
-        return None   # only layout differs
+            si, sm = [], []
+            _strings_in(fi, si); _strings_in(fm, sm)
+            if si != sm:
+                return ("the string literals of the emitted program decode to %s where the property demands %s"
+                        % ([x[:40] for x in si if x not in sm][:3] or "a different sequence", [x[:40] for x in sm if x not in si][:3] or "another order"))
+        # "literal format text is printed verbatim": run the implementation's program and find's rules on
+        # directed file records (the semantic oracle of C02) and compare what is written
+        if "Formatted" in parse_part(impl):
+            why = PROPS["C02"].oracle(case, impl, model)
+            if why and "file record" in why:
+                return why
+        return None   # layout, or code that holds no user text, differs
 
 
 # ------------------------------------------------------------------------------------------- C05
@@ -652,7 +722,7 @@ class C05(Prop):
         return out
 
     def project(self, case, line):
-        return tree_or_err(line)
+        return tree_or_err(parse_part(line))
 
     def nontrivial(self, case, line):
         return ".20." in case
@@ -706,6 +776,10 @@ def redundant_parens(rng, ws):
 class C06(Prop):
     id = "C06"
     theorems = []
+
+    def oracle(self, case, impl, model):
+        # a difference from the model does not show that two spellings of one expression differ: see post()
+        return None
     rule = ("generated expressions x layout variants (kind and amount of blanks per gap incl. leading/trailing, "
             "implicit/-a/-and, -o/-or, redundant parentheses with and without inner blanks, quoting style of string "
             "arguments when the value permits it); compared: options and tree of every variant with the model's and "
@@ -770,6 +844,19 @@ class C06(Prop):
 class C07(Prop):
     id = "C07"
     theorems = []
+
+    def oracle(self, case, impl, model):
+        nums = lambda t: sorted(re.findall(r"(?<![\w.:%])\d+(?![\w.:])", re.sub(r"clock \d+ ", "", t)))
+        if impl.startswith("OK") != model.startswith("OK"):
+            return ("a number the property demands to be rejected is accepted" if impl.startswith("OK")
+                    else "a number in the range of its field is rejected")
+        if nums(impl) != nums(model):
+            return ("the numbers carried into the tree or the emitted constants are %s where the property demands %s"
+                    % ([x for x in nums(impl) if x not in nums(model)][:4], [x for x in nums(model) if x not in nums(impl)][:4]))
+        return None
+
+    def project(self, case, line):
+        return std_struct(line)
     release = True
     rule = ("every numeric primary x decimal strings around 0, 2^31, 2^32, 2^63, 2^64, 2^64/unit (+-1) for every "
             "unit, leading zeros, signs, up to 40 digits, random values; both profiles; compared: the number in the "
@@ -902,9 +989,16 @@ def small_trees(n_ops):
 class C09(Prop):
     id = "C09"
     theorems = []
+
+    def post(self, results):
+        # model-independent half: the shape the property demands, decided on the implementation's own answers
+        return [(c, w) for c, i, m in results for w in [SP.c09_evidence(i or "")] if w]
+
+    def project(self, case, line):
+        return std_struct(line)
     rule = ("all expression trees with up to 2 (quick) / 3 (thorough) operator nodes over {true, false, a name test, "
             "print, quit, a file print} and And/Or/List/Not, exhaustively, plus random larger trees and parsed "
-            "expressions; compared: the emitted program and destination table. Non-trivial: at least one operator")
+            "expressions; compared: the emitted program as read back and the destination table; the shape the property demands is also decided on the implementation's own answer. Non-trivial: at least one operator")
 
     def cases(self, tier, rng):
         out = []
@@ -933,7 +1027,18 @@ class C09(Prop):
         return any(k in case for k in ("And ", "Or ", "List ", "Not ")) or case.startswith("PC")
 
     def oracle(self, case, impl, model):
-        return oracle_program(case, impl, model)
+        return SP.c09_evidence(impl)
+
+
+def _strings_in(x, acc):
+    stack = [x]
+    while stack:
+        y = stack.pop()
+        if isinstance(y, list):
+            stack.extend(reversed(y))
+        elif isinstance(y, tuple) and y[0] == "s":
+            acc.append(y[1])
+    return acc
 
 
 def read_forms(text):
@@ -971,6 +1076,12 @@ OUT_ACTIONS = ["-print", "-print0", "-print-file-fid", "-fprint f1", "-fprint f2
 class C10(Prop):
     id = "C10"
     theorems = []
+
+    def post(self, results):
+        return [(c, w) for c, i, m in results for w in [SP.c10_evidence(i or "")] if w]
+
+    def project(self, case, line):
+        return std_struct(line)
     rule = ("all multisets of up to 3 (quick) / 4 (thorough) actions from every output-producing action with file "
             "names from a pool of 3, in random operator trees; random mixes of up to 6; expressions with 1..300 distinct "
             "destinations and with more than 254 generated identifiers before a printer; compared: destination table, "
@@ -1014,7 +1125,7 @@ class C10(Prop):
         return line.count("%lf3:print:") >= 2 or " none " in line
 
     def oracle(self, case, impl, model):
-        return oracle_program(case, impl, model)
+        return SP.c10_evidence(impl)
 
 
 # ------------------------------------------------------------------------------------------- C11
@@ -1023,6 +1134,9 @@ class C10(Prop):
 class C11(Prop):
     id = "C11"
     theorems = []
+
+    def project(self, case, line):
+        return std_struct(line)
     rule = ("expressions with 0..300 matchers and printers in random first-occurrence order with deliberate repeats, "
             "case-only differences (-name/-iname, -path/-ipath on the same text) and pattern/literal pairs, in plain "
             "and in framed mode; compared: the emitted program (bindings, references). Non-trivial: at least 2 "
@@ -1051,6 +1165,21 @@ class C11(Prop):
             s = " -o ".join("%s p%d" % (rng.choice(kws), rng.randint(0, n)) for _ in range(n))
             out.append((PC(s), "many"))
             out.append((PC(s + " -print0 -fprint z"), "many"))
+        # requests that differ, but whose (pattern, case-sensitivity) or (destination, terminator) would collide
+        # under a key built by gluing the parts together
+        glue = ["/i", ":i", "|i", "#i", ",i", ";i", " i", "-i", "_i", ".i", "i", "/1", ":1", "1", ":true", "/ci", "\\0i", "/I"]
+        for pat_ in ["docs", "a*", ""]:
+            for g in glue:
+                for a_, b_ in ((g, ""), ("", g)):
+                    for tail in ["", " -print0"]:
+                        out.append((PC("-ipath '%s%s' -o -path '%s%s'%s" % (pat_, b_, pat_, a_, tail)), "key-collision"))
+                        out.append((PC("-name '%s%s' -o -iname '%s%s'%s" % (pat_, a_, pat_, b_, tail)), "key-collision"))
+        for g in ["0", "/0", ":0", "\\0", "n", "/n", ":n", "-", "/-", ":None", ":Some", "a", "/a", "\\n"]:
+            for a1, a2 in (("-fprint0", "-fprint"), ("-fprint", "-fprint0"), ("-fprintf", "-fprint0"), ("-fprint0", "-fprintf")):
+                f1 = "%s 'o%s'%s" % (a1, "", " '%p'" if a1 == "-fprintf" else "")
+                f2 = "%s 'o%s'%s" % (a2, g, " '%p'" if a2 == "-fprintf" else "")
+                out.append((PC(f1 + " " + f2), "key-collision"))
+                out.append((PC(f2 + " " + f1 + " " + f2), "key-collision"))
         for a in pats:
             for k1 in kws:
                 for k2 in kws:
@@ -1070,7 +1199,13 @@ class C11(Prop):
             why = SX.scope_check(forms)
             if why:
                 return why
-        return oracle_program(case, impl, model)
+        tm = scheme_of(model)
+        if ti and tm:
+            ki, km = SP.resource_skeleton(read_forms(ti[0])), SP.resource_skeleton(read_forms(tm[0]))
+            if ki != km:
+                return ("the bindings of the program, or the order in which the policy body refers to them, differ from what "
+                        "the property demands (a reference reaches another resource, or sharing differs)")
+        return None
 
 
 # ------------------------------------------------------------------------------------------- C12
@@ -1093,6 +1228,11 @@ class C12(Prop):
                                                               "PermissionsSymbolic", "TypeSymlink", "SecurityContext"]]
                    + ["A PrintFormatted 1 X Clear", "A FilePrintFormatted S66 2 L S61 X Clear"])
         for s in singles:
+            for d_ in ("0", "1"):
+                for t_ in ("-", "0", "1", "7"):
+                    if (d_, t_) != ("0", "-"):
+                        out.append(("TC %s %s 2f %s" % (d_, t_, s), "single-with-options"))
+                        out.append(("TC %s %s 2f And T Name S78 %s" % (d_, t_, s), "single-with-options"))
             out.append(("TC 0 - 2f " + s, "single"))
             out.append(("TC 0 - 2f Or T True " + s, "single-dead-branch"))
             out.append(("TC 0 - 2f And T False Not " + s, "single-dead-branch"))
@@ -1100,6 +1240,18 @@ class C12(Prop):
             out.append(("TC 0 - 2f " + gen.tree(rng, rng.randint(1, 5), api_only=False, unsupported=rng.choice([0.0, 0.1, 0.3])), "random-tree"))
             ws = gen.expr_words(rng, 3, unsupported=rng.choice([0.0, 0.15, 0.4]), hostile=0.0)
             out.append((PC(" ".join(ws)), "random-parsed"))
+            if rng.random() < 0.3:
+                opt = rng.choice(["-depth", "-threads 1", "-threads 0", "-depth -threads 3"])
+                out.append((PC(rng.choice([opt + " " + " ".join(ws), " ".join(ws) + " " + opt])), "random-parsed-with-options"))
+        # unsupported primaries that take a word: with numeric, empty and odd arguments; with options around
+        for kw in gen.STR_TESTS_UNSUP + gen.STR_ACTIONS_UNSUP:
+            for arg in ["1000", "007", "0", "''", '""', "-1", "root", "'a b'", "x*"]:
+                for pre in ["", "-depth ", "-threads 1 ", "-name x "]:
+                    out.append((PC("%s%s %s" % (pre, kw, arg)), "unsupported-word-argument"))
+        for kw in gen.BARE_TESTS_UNSUP + gen.BARE_ACTIONS_UNSUP:
+            for pre in ["", "-depth ", "-threads 1 ", "-depth -name x ", "-name x -o "]:
+                for post in ["", " -depth", " -o -print", " -print"]:
+                    out.append((PC(pre + kw + post), "unsupported-bare"))
         return out
 
     def project(self, case, line):
@@ -1107,6 +1259,13 @@ class C12(Prop):
         c = strip_clock(c)
         if " COK " in c:
             return parse_part(line).split(" ")[0] + " COK"
+        m = CERR_RE.search(" " + c)
+        if m:
+            # the variant and the construct named; of the Display text only whether it names that construct
+            # (case-insensitively, as a phrase such as "-nouser" or "no user" would also name it: not decided here)
+            name = m.group(2).split("(")[0]
+            names = name.lower() in m.group(3).lower()
+            return "%s CERR %s %s display-names-construct=%s" % (parse_part(line).split(" ")[0], m.group(1), m.group(2), names)
         return parse_part(line).split(" ")[0] + " " + c
 
     def nontrivial(self, case, line):
@@ -1119,6 +1278,23 @@ class C12(Prop):
 class C13(Prop):
     id = "C13"
     theorems = []
+
+    def oracle(self, case, impl, model):
+        text = unesc_case(case) if case.startswith("P") else ""
+        if not any(k in text for k in ("-depth", "-threads", "-maxdepth", "-mindepth")):
+            # no option in the input: the only part of the property in play is the default thread count
+            ai, am = SP.thread_argument(impl), SP.thread_argument(model)
+            if ai != am and ai is not None and am is not None:
+                return "the scan call is given %s threads where the property demands the runtime's default %s" % (ai, am)
+            return None
+        return "options, tree or thread count differ from what the theorems prove the property demands on an input with options"
+
+    def project(self, case, line):
+        # the options returned, the tree (no option node in it), and the thread-count argument of the
+        # emitted scan call; how the tests and actions of the tree are compiled is other properties' subject
+        c = compile_part(line)
+        cls = "COK" if " COK " in " " + c else cerr_struct(" " + strip_clock(c)).strip() if c else ""
+        return "%s || %s threads-argument=%s" % (tree_or_err(parse_part(line)), cls, SP.thread_argument(line))
     rule = ("random expressions with 0..4 options (-depth, -threads N, -maxdepth N, -mindepth N) inserted at random "
             "word boundaries (front, middle, inside parentheses, after '!'), repeated with different values; compared: "
             "returned options, tree, and the thread argument of the emitted scan call. Non-trivial: at least one option")
@@ -1208,6 +1384,11 @@ class C14(Prop):
 class C15(Prop):
     id = "C15"
     theorems = []
+
+    def project(self, case, line):
+        # against the model: the program as read back; the byte-for-byte comparisons this property is
+        # about are between the implementation's own answers (post / oracle)
+        return std_struct(line)
     single_process = False
     rule = ("random expressions biased to many matchers/printers/files, each parsed+compiled 5 times in one process "
             "with unrelated compilations in between, the whole batch in several fresh processes (fresh hash seeds), and "
@@ -1234,6 +1415,17 @@ class C15(Prop):
             for w in items[1:]:
                 s += rng.choice([" ", " -o ", " -a "]) + w
             out.append((PC(s, "/dev/x"), "base"))
+        # an error is a result too: inputs that are rejected, and expressions that are refused with several
+        # unsupported constructs at once (which one is named must not vary between calls or processes)
+        unsup_f = ["%d", "%D", "%F", "%l", "%M", "%Y", "%Z", "\\c"]
+        for _ in range(200 if tier == "quick" else 4000):
+            k = rng.randint(2, 6)
+            fmt = " ".join(rng.sample(unsup_f, k)) + rng.choice(["", "%p", "\\n"])
+            out.append((PC("%s-printf '%s'" % (rng.choice(["", "-name a ", "-nouser -o "]), fmt), "/dev/x"), "base-refused"))
+            ws = gen.expr_words(rng, 3, unsupported=0.6, hostile=0.0)
+            out.append((PC(" ".join(ws), "/dev/x"), "base-refused"))
+            ws = gen.expr_words(rng, 3, unsupported=0.2)
+            out.append((PC(mutate(rng, " ".join(ws)), "/dev/x"), "base-rejected"))
         # three repetitions that land in the same process (batch length a multiple of the shard
         # count), two that land in other processes (shifted by one), all with unrelated compilations
         # in between
@@ -1272,14 +1464,23 @@ class C15(Prop):
         return line.count("(%lf3:") >= 2 or "quotient" in line
 
     def oracle(self, case, impl, model):
-        return "the program or the embedded second differs from the deterministic model's answer for the clock measured around the call"
+        # a difference from the model is not by itself a difference between two runs (see post()); what it can
+        # show is the second half of the property: the embedded second is the clock reading around the call
+        mc = re.search(r"clock (\d+) ", impl)
+        if mc and " COK " in impl and " COK " in model:
+            big = lambda t: set(x for x in re.findall(r"\d{9,}", t))
+            extra = big(compile_part(impl)) - big(compile_part(model))
+            if extra:
+                return ("the program embeds the second(s) %s while the clock read %s both before and after the compile call"
+                        % (sorted(extra)[:3], mc.group(1)))
+        return None
 
     def post(self, results):
         seen, bad = {}, []
         for c, i, m in results:
             k = strip_epoch(i)
             if c in seen and seen[c] != k:
-                bad.append((c, "two compilations of the same input give different programs"))
+                bad.append((c, "two compilations of the same input give different results"))
             seen.setdefault(c, k)
         return bad
 
@@ -1290,6 +1491,9 @@ class C15(Prop):
 class C16(Prop):
     id = "C16"
     theorems = []
+
+    def project(self, case, line):
+        return std_struct(line)
     rule = ("programs with 1..3 printers (every printer-creating action, stdout and files, all terminators) in random "
             "operator trees; compared: the emitted program, whose printer bindings and frame procedure are the lock/"
             "write/unlock step sequences the interleaving theorem quantifies over; in addition the locking discipline "
@@ -1327,7 +1531,8 @@ class C16(Prop):
             why = SX.discipline_check(forms)
             if why:
                 return why
-        return oracle_program(case, impl, model)
+        # whole records also need the right mode: plain output only for newline-terminated records
+        return SP.c10_evidence(impl)
 
     def post(self, results):
         bad = []
@@ -1336,6 +1541,7 @@ class C16(Prop):
             if ti:
                 forms = SX.read_all(ti[0])
                 why = SX.discipline_check(forms) if forms else "the emitted program does not read back"
+                why = why or SP.c10_evidence(i)
                 if why:
                     bad.append((c, why))
         return bad
@@ -1347,6 +1553,15 @@ class C16(Prop):
 class C17(Prop):
     id = "C17"
     theorems = []
+
+    def project(self, case, line):
+        # against the model: the program as read back; the byte-for-byte comparisons this property is
+        # about are between the implementation's own answers (post / oracle)
+        return std_struct(line)
+
+    def oracle(self, case, impl, model):
+        # a difference from the model is not a difference between the two builds: see post()
+        return None
     release = True
     rule = ("the corpora of C03 and C05 (valid, invalid and boundary inputs) through a debug and a release build of the "
             "same harness; compared record by record with the model (hence with each other), clock normalised by "
@@ -1402,8 +1617,12 @@ class C18(Prop):
     id = "C18"
     theorems = []
     rule = ("every argument-taking keyword x invalid-from-the-start argument words and end of input, after 0..3 valid "
-            "primaries and before 0..2 more; unknown words at random positions; compared: the complete message text. "
-            "Non-trivial: the primary is embedded (not alone)")
+            "primaries and before 0..2 more; unknown words at random positions; well-formed expressions damaged by one "
+            "or two edits; compared: the kind of error, the keyword it names, the word it quotes and whether an "
+            "explanation follows (not the wording of the explanation). Non-trivial: the primary is embedded (not alone)")
+
+    def project(self, case, line):
+        return perr_struct(line) if line.startswith("ERR") else tree_or_err(line)
 
     def cases(self, tier, rng):
         out = []
@@ -1423,15 +1642,50 @@ class C18(Prop):
                 pre = [rng.choice(valid) for _ in range(rng.randint(0, 3))]
                 post = [rng.choice(valid[:6]) for _ in range(rng.randint(0, 2))]
                 out.append((P(" ".join(pre + [w] + post)), "unknown-word"))
+        # rejected inputs of every other shape: well-formed expressions damaged by one or two edits
+        for _ in range(6000 if tier == "quick" else 150000):
+            ws = gen.expr_words(rng, depth=rng.randint(1, 4), unsupported=0.1, options=0.1)
+            s_ = gen.join_words(rng, ws, fancy=rng.random() < 0.2)
+            for _k in range(rng.randint(1, 2)):
+                s_ = mutate(rng, s_)
+            out.append((P(s_), "random-damaged"))
         return out
 
     def nontrivial(self, case, line):
         return case.count(".20.") >= 2
 
     def oracle(self, case, impl, model):
-        if not impl.startswith("ERR"):
+        if not impl.startswith("ERR") and model.startswith("ERR"):
             return "the input is accepted although the property demands an error"
-        return "the error text differs from the one the theorems prove to name the keyword and quote the word"
+        if impl.startswith("ERR") and not model.startswith("ERR"):
+            return None
+        return ("the error does not name the keyword / quote the word that the theorems prove it must: expected %s, got %s"
+                % (perr_struct(model)[:200], perr_struct(impl)[:200]))
+
+    def post(self, results):
+        """model-independent half of the property: a message is never empty and the word it quotes
+        (and the keyword it names) occur in the input"""
+        bad = []
+        for c, i, m in results:
+            if not c.startswith("P ") or not (i or "").startswith("ERR"):
+                continue
+            text = unesc_case(c)
+            msg = unesc(i[3:].strip())
+            if not msg.strip():
+                bad.append((c, "the input is rejected with an empty message"))
+                continue
+            for rx in (PERR_ARG, PERR_TOK):
+                mm = rx.match(unesc(i))
+                if mm:
+                    quoted = [mm.group(1)] + ([mm.group(3)] if rx is PERR_ARG else [])
+                    # ... and whatever the explanation that follows puts between back-quotes
+                    if rx is PERR_ARG and mm.group(4):
+                        quoted += re.findall(r"`([^`]*)`", mm.group(4))
+                    for q in quoted:
+                        if q and q not in text:
+                            bad.append((c, "the message quotes `%s`, which does not occur in the input" % q[:80]))
+                    break
+        return bad
 
 
 # ------------------------------------------------------------------------------------------- C19
@@ -1489,16 +1743,28 @@ class C19(Prop):
 HOSTILE_PATHS = ["a \nb", "a\t\nb", "a\r\nb", " lead", "trail ", "two  spaces", "\n", "tab\t",
                  "lipe", "find", "lambda", "#t", "0", "mdt0", "let*", "/mnt/éé\"x", "/日本語\\mdt0", "été \"2024\"/mdt", "💾\"", "/mnt/lustré\\mdt0",
                  "/dev/mdt0", "/", "", "a b", "x\"y", "back\\slash", "q\\", "\"", "é☃", "~a~%", "(;#|", "new\nline", "t\tab", "z" * 10000,
-                 "\") (system \"id\") (\""]
+                 "\") (system \"id\") (\"",
+                 # characters a general-purpose escaper treats specially: other control characters, DEL, C1 controls,
+                 # combining marks, line/paragraph separators, private-use and the last code point, a lone NUL
+                 "/dev/\x1b[31mred\x1b[0m", "a\x7fb", "nel\u0085x", "cafe\u0301", "ls\u2028ps\u2029", "pu\ue000a", "max\U0010ffff",
+                 "nul\x00mid", "\x01\x02\x1f", "bell\x07\x08\x0b\x0c", "zwj\u200d\ufeff", "rtl\u202e"]
 
 
 @register
 class C20(Prop):
     id = "C20"
     theorems = []
+
+    def post(self, results):
+        return [(c, w) for c, i, m in results for w in [SP.c20_evidence(c, i or "")] if w]
+
+    def project(self, case, line):
+        # against the model: the program as read back; the byte-for-byte comparisons this property is
+        # about are between the implementation's own answers (post / oracle)
+        return std_struct(line)
     rule = ("random compiled expressions x histories of 2..5 render calls with device paths from benign and hostile "
             "strings (quotes, backslashes, blanks, non-ASCII, 10 kB), each followed by a destination-table query; "
-            "compared: every returned text and the table. Non-trivial: history with at least two different paths")
+            "compared: every rendering (as read back) and the table with the model's; the renderings byte for byte with one another, the device string decoded. Non-trivial: history with at least two different paths")
 
     def cases(self, tier, rng):
         out = []
@@ -1530,13 +1796,4 @@ class C20(Prop):
     def oracle(self, case, impl, model):
         if "IOMAP-CHANGED" in impl:
             return "rendering changed the destination table"
-        ti, tm = scheme_of(impl), scheme_of(model)
-        if ti is None or tm is None or len(ti) != len(tm):
-            return "different outcome"
-        for a, b in zip(ti, tm):
-            fa, fb = read_forms(a), read_forms(b)
-            if fa is None:
-                return "a rendering does not read back"
-            if fa != fb:
-                return "a rendering differs from the demanded program in more than the device string"
-        return None
+        return SP.c20_evidence(case, impl)
